@@ -135,7 +135,10 @@ func expectFor(e ctxExpect, shape, tok string, ipLast int) ctxObs {
 		"lookup": "/p/", "lookupclone": "/p/", "clonewith": "/p/", "clone": "/p/",
 		"tsrclone": "/ic/", "hostdirect": "/hd/", "hosttsr": "/hi/", "statichost": "/hs/", "hijack": "/hj/", "txnlookup": "/p/",
 		"tsrclonewith": "/iw/", "tsrlookup": "/i/", "wrapclone": "/wc/", "directcopy": "/p/", "noroutecopy": "/nope/",
-		"swapped": "/sw/", "wrapf": "/wf/", "noquery": "/nq/", "hostnomethod": "/two/"}[shape] + tok
+		"swapped": "/sw/", "wrapf": "/wf/", "noquery": "/nq/", "hostnomethod": "/two/", "infix": "/fx/"}[shape] + tok
+	if shape == "infix" {
+		o.Path += "/dl"
+	}
 	switch shape { // routes without a parameter: the path carries no token
 	case "staticdirect":
 		o.Path = "/sd"
@@ -173,6 +176,8 @@ func expectFor(e ctxExpect, shape, tok string, ipLast int) ctxObs {
 			o.Route = "/wf/{x}"
 		case "noquery":
 			o.Route = "/nq/{x}"
+		case "infix":
+			o.Route = "/fx/*{x}/dl"
 		}
 	}
 	if e.Query == "-" {
@@ -306,6 +311,7 @@ func (cr *ctxReplayer) runSeq(v ctxVec, run string) {
 		failTool("fox.New: %v", err)
 	}
 	rt.MustHandle("GET", "/p/{x}", h)
+	rt.MustHandle("GET", "/fx/*{x}/dl", h)
 	rt.MustHandle("GET", "/i/{x}/", h, fox.WithIgnoreTrailingSlash(true))
 	rt.MustHandle("GET", "/r/{x}/", h, fox.WithRedirectTrailingSlash(true))
 	rt.MustHandle("GET", "/c/{x}", hClone)
@@ -522,6 +528,8 @@ func (cr *ctxReplayer) runSeq(v ctxVec, run string) {
 			path = "/wc/" + cur
 		case "noquery":
 			path = "/nq/" + cur
+		case "infix":
+			path = "/fx/" + cur + "/dl"
 		case "hostnomethod":
 			path = "/two/" + cur
 		case "swapped":
@@ -617,7 +625,7 @@ func (cr *ctxReplayer) runSeq(v ctxVec, run string) {
 }
 
 func checkC12(r *Run) {
-	maxLen := 3 // 27 shapes x with / without a tree replacement: about 160 000 sequences; length 4 would be 8.5 million
+	maxLen := 3 // 28 shapes x with / without a tree replacement: about 160 000 sequences; length 4 would be 8.5 million
 	gen := fmt.Sprintf("---- MODULE Gen_Context ----\nGenMaxLen == %d\n====\n", maxLen)
 	model := r.runTLC(tlcOpts{Module: "MC_ContextModel", Gen: map[string]string{"Gen_Context.tla": gen}, Timeout: 5 * time.Minute})
 	model.mustClean("MC_ContextModel")
